@@ -12,6 +12,10 @@ CLAIMED = {
             "dim_of is proved a homomorphism (mul/div/pow) into canonical dimension containers for EVERY registry and container; conversion yields DimensionalityError iff dimensionalities differ and a number only if equal; compatibility is an equivalence and a congruence. The model registry is regenerated from /repo's definition files on every run (T1) and compared with pint on every spelling, sampled prefixed strings, unit pairs and random compound units; the biconditional, the four predicate APIs, symmetry/transitivity/congruence and configuration independence are checked on the real registry.",
             TB + " Non-multiplicative units are C06's. The success direction of conversion (same dimension => a number) relies on the expansion not erroring, which is checked by correspondence, not proved, for arbitrary registries.",
             "DESIGN.md §4 C01"),
+    "C02": ("Coq proof (root-unit expansion is the linear extension of per-definition rows; factor = ratio; identity/inverse/path independence via integer-power laws of Qc) for every registry + T1-regenerated registry + exact differential correspondence in the Fraction registry + oracles",
+            "For every registry: pint's accumulate-as-you-recurse root expansion equals the denotation (homomorphism for * / **), the numeric factor of an integral symbolic factor is the product of scale powers, conversion a->b multiplies by factor(a)/factor(b), hence identity, inverse and path independence; side conditions (non-zero scales, exact units) are decided by computation on the registry regenerated from /repo. K: exact factor of every spelling, every ordered same-dimension pair of rational units (cold/warm cache, both directions first), prefix x unit (applied once), compound units, result types, Decimal (1e-24) and float (32 ulp) registries.",
+            TB + " The float clause is a test with a stated bound, not a theorem. Units expanding through non-integer powers (computed set, listed in evidence) are outside the exactness clause.",
+            "DESIGN.md §4 C02"),
     "C04": ("Coq proof over gmap-string-Qc container model + differential correspondence (differ inside Coq via vm_compute) + implementation-side law oracles",
             "Group laws, canonical form, ==/hash agreement and hash-cache invariant are Coq theorems over the executable model Model/UC.v for all containers (no size bound); the model is tied to pint by running every container operation of UnitsContainer/ParserHelper/Unit/Quantity on the real classes (exhaustive over 125 small containers x pairs, random beyond) and checking inside Coq that the model returns the same container, and by stateful op sequences with interleaved hash() calls.",
             TB + " Ideal (injective) hash abstraction; float exponents only on the dyadic grid. Buckingham-pi basis clause not yet modelled (partial).",
